@@ -221,10 +221,12 @@ def field_variants(rng, cells, incremental):
 # ---- sequence stream: state carried between calls -------------------------------------------
 
 def clone_cells(cells):
-    """fresh cell objects with fresh (deep-copied) values: nothing shared with `cells`"""
+    """fresh cell objects with fresh (deep-copied) values: nothing shared with `cells`; arrays that
+    several of the cells share stay shared among the clones (one deepcopy memo)"""
     out = []
+    memo = {}
     for c in cells:
-        vals = copy.deepcopy(c.values)
+        vals = copy.deepcopy(c.values, memo)
         if isinstance(c, IncrementalCell):
             out.append(IncrementalCell(c.period_start, c.period_end, c.prev_evaluation_date,
                                        c.evaluation_date, vals, c.metadata))
@@ -308,7 +310,7 @@ def sequence_case(ctx, rng, send, prime):
     ctx.count(f"seq/max_row={min(info['max_row'], 4)}")
 
     def fresh_cum():
-        return Triangle(clone_cells(cells)) if not shared else Triangle(share_arrays(random.Random(7), clone_cells(cells)))
+        return Triangle(clone_cells(cells))
 
     x_ref = Triangle(cells)
     xw = w_cells(x_ref.cells)
